@@ -182,9 +182,9 @@ func refTsMarshal(secs int64, nanos int32) string {
 // at most nine fraction digits, instant within 0001-01-01T00:00:00Z .. 9999-12-31T23:59:59.999999999Z.
 var tsRe = regexp.MustCompile(`^([0-9]{4})-([0-9]{2})-([0-9]{2})T([0-9]{2}):([0-9]{2}):([0-9]{2})(?:(\.)([0-9]+))?(Z|[+-][0-9]{2}:[0-9]{2})$`)
 
-// the same with the three known leniencies of time.Parse: one-digit hour, ',' separator (then the
-// nine-digit test of unmarshalTimestamp does not apply), offset hour 24 / minute 60.
-var tsLenientRe = regexp.MustCompile(`^([0-9]{4})-([0-9]{2})-([0-9]{2})T([0-9]{1,2}):([0-9]{2}):([0-9]{2})(?:([.,])([0-9]+))?(Z|[+-][0-9]{2}:[0-9]{2})$`)
+// the same with the two known leniencies of time.Parse that still reach unmarshalTimestamp: one-digit
+// hour, offset hour 24 / minute 60.  (',' as separator is rejected since /repo 5508893.)
+var tsLenientRe = regexp.MustCompile(`^([0-9]{4})-([0-9]{2})-([0-9]{2})T([0-9]{1,2}):([0-9]{2}):([0-9]{2})(?:(\.)([0-9]+))?(Z|[+-][0-9]{2}:[0-9]{2})$`)
 
 func atoi64(s string) int64 { v, _ := strconv.ParseInt(s, 10, 64); return v }
 
@@ -207,12 +207,7 @@ func refTsParse(s string, lenient bool) (string, []string) {
 		dev = append(dev, sigTsHour1)
 	}
 	frac := g[8]
-	if g[7] == "," {
-		dev = append(dev, sigTsComma)
-		if len(frac) > 9 {
-			frac = frac[:9]
-		}
-	} else if len(frac) > 9 {
+	if len(frac) > 9 {
 		return "none", nil
 	}
 	for len(frac) < 9 {
